@@ -119,6 +119,8 @@ class FunctionInfo:
         while stack:
             n = stack.pop()
             out.append(n)
+            if isinstance(n, (ast.FunctionDef, ast.AsyncFunctionDef, ast.ClassDef, ast.Lambda)):
+                continue  # a nested definition is a node of this body, its own body is not
             for c in reversed(list(ast.iter_child_nodes(n))):
                 if isinstance(c, (ast.FunctionDef, ast.AsyncFunctionDef, ast.ClassDef,
                                   ast.Lambda)):
